@@ -43,7 +43,8 @@ def run(chk, tier, seed):
     n = 12 if tier == "quick" else 120
     base = tempfile.mkdtemp(prefix="c14-", dir=learner.WORK if os.path.isdir(learner.WORK) else None)
     try:
-        args = [(k, seed, k % 2 == 1, (k // 2) % 2 == 1, base) for k in range(n)]
+        maps = [None] + pipeline.CUSTOM_MAPS
+        args = [(k, seed, k % 2 == 1, maps[(k // 2) % len(maps)], base) for k in range(n)]
         with ThreadPoolExecutor(max_workers=6) as ex:
             cases = list(ex.map(one_case, args))
     finally:
@@ -54,7 +55,7 @@ def run(chk, tier, seed):
     pairs, powner = [], []
     for c in cases:
         key = "case %d (seed %d, %s, %s mapping)" % (c["k"], seed, "async" if c["async"] else "sync",
-                                                     "custom" if c["custom"] else "default")
+                                                     "custom %s" % sorted((k, v) for k, v in c["custom"].items() if k != v) if c["custom"] else "default")
         detail = {"async": c["async"], "custom_mapping": c["custom"], "documents": c["docs"],
                   "routes": {"A": c["routes"]["A"], "B1": c["routes"]["B1"], "B2": c["routes"]["B2"]}}
         bad_rc = [r for r in [c["routes"]["A"], c["routes"]["B1"]] + [x[1] for x in c["routes"]["B2"]] if r["rc"] != 0]
@@ -64,7 +65,7 @@ def run(chk, tier, seed):
         if not c["stream"].get("ok") or not c["load"].get("ok"):
             chk.violation(key, "stage-failed", dict(detail, stream=c["stream"], load=c["load"]))
             continue
-        mp = pipeline.CUSTOM_MAP if c["custom"] else pipeline.DEFAULT_MAP
+        mp = c["custom"] or pipeline.DEFAULT_MAP
         runs.append((mp, c["stream"]["jobs"], c["files"], c["load"]["jobs"]))
         rowner.append((key, detail))
         if set(c["pumlA"]) != set(c["pumlB"]):
@@ -96,7 +97,7 @@ def run(chk, tier, seed):
            "traces_validated_against_impl": len(runs) + ntr, "evaluations": len(cases),
            "distinct_nontrivial": sum(1 for c in cases if len(c["pumlA"]) >= 2),
            "rule": "seeded data sets of 2-3 workflows x 2-4 traces (call trees with optional, alternative and overlapping "
-                   "children) x {default, custom} mapping x {sync, async}; both routes through python -m tel2puml; "
+                   "children) x {default, 5 custom mappings: fresh names / names that are defaults of other fields / swap / partial} x {sync, async}; both routes through python -m tel2puml; "
                    "non-trivial = at least two workflows",
            "cli_invocations": sum(2 + len(c["routes"]["B2"]) for c in cases), "diagram_pairs_compared": len(pairs),
            "exhaustive": False}
